@@ -17,7 +17,7 @@ PROP = dict(
          "with named arguments (also `.Variant(name = …)`), every argument value an arbitrary expression over the shadowed scope; "
          "struct construction and field access, enum variants written `.V` and `E.V`, array and "
          "tuple literals, indexing; every import form; variable names drawn from a pool of nine, one of which is also an "
-         "imported function's name, so shadowing is the rule; non-ASCII string literals and comments, task blocks; the D12 / D45 / D60 probe programs are hard regression inputs). Per file: "
+         "imported function's name, so shadowing is the rule; plus 6 hand-written witness programs for the lsp_helper constructs no generated program contains (constraint arguments in parameter annotations, interface definitions with output types, constraints on type parameters of type definitions, struct names in for / let patterns, qualified variant patterns, interface methods and implementations) with listed go-to-definition and hover answers; non-ASCII string literals and comments, task blocks; the D12 / D45 / D60 probe programs are hard regression inputs). Per file: "
          "two model cases (identifier search, innermost-node search) covering EVERY byte offset 0..=len+2, one case claiming "
          "the hypotheses of the identifier-search theorem for the parsed file (decided by the proven-sound executable check "
          "wfB in the model; and the hover-search nesting check); spec checks at "
